@@ -3,7 +3,9 @@ import Lox.Rang3.Drv
 import Lox.Table.Drv
 import Lox.LR.Drv
 import Lox.Lex.Drv
+import Lox.Lex.DrvRuntime
 import Lox.Dec.Drv
+import Lox.Dec.DrvTerminals
 /-! Line-protocol driver: one case per input line `area.op payload`, one answer per output line.
 Core-only imports so that this links as a `lean_exe`. -/
 
@@ -17,22 +19,35 @@ def dispatch (line : String) : String :=
     | "rang3" => Lox.Rang3.handle op payload
     | "table" => Lox.Table.handle op payload
     | "lr" => Lox.LR.handle op payload
-    | "lex" => Lox.Lex.handle op payload
-    | "dec" => Lox.Dec.handle op payload
+    | "lex" => (Lox.Lex.handle op payload).orElse fun _ => Lox.Lex.Rt.handleRuntime op payload
+    | "dec" => (Lox.Dec.handle op payload).orElse fun _ => Lox.Dec.Terminals.handleTerminals op payload
     | _ => none
   r.getD "bad-op"
 
-partial def loop (hin hout : IO.FS.Stream) : IO Unit := do
+/-- `@let NAME payload` lines bind `$NAME` for the following lines (answer: `let`), so that big
+tables are sent once per grammar and not once per input. -/
+partial def loop (hin hout : IO.FS.Stream) (env : List (String × String)) : IO Unit := do
   let line ← hin.getLine
   if line.isEmpty then return ()
   if line.trimAscii.toString.isEmpty || line.startsWith "#" then
     hout.putStrLn line.trimAsciiEnd.toString
+    loop hin hout env
+  else if line.startsWith "@let " then
+    let rest := (line.drop 5).trimAsciiEnd.toString
+    match rest.splitOn " " with
+    | name :: payload =>
+      hout.putStrLn "let"
+      loop hin hout (("$" ++ name, " ".intercalate payload) :: env.filter (·.1 ≠ "$" ++ name))
+    | [] =>
+      hout.putStrLn "bad-op"
+      loop hin hout env
   else
+    let line := if line.contains '$' then env.foldl (fun l (k, v) => l.replace k v) line else line
     hout.putStrLn (dispatch line)
-  loop hin hout
+    loop hin hout env
 
 def main : IO Unit := do
   let hin ← IO.getStdin
   let hout ← IO.getStdout
-  loop hin hout
+  loop hin hout []
   hout.flush
